@@ -319,7 +319,41 @@ func C09Race(args []string) {
 			}
 		}
 	}
-	fmt.Printf("race-pass iterations=%d mismatches=%d\n", iters*4, bad)
+	// the built-in surface (string / slice / map methods, built-in functions, JSON facts, time values)
+	sink, err := hx.BuildText(c09Sink)
+	if err != nil {
+		fmt.Println("build of the built-in surface library failed:", err)
+		os.Exit(3)
+	}
+	if ref0 := c09SinkBody(sink, 0, 0); !strings.HasPrefix(ref0, "fired=7 err=\"\"") {
+		fmt.Println("VACUOUS built-in surface library: not all 7 rules fire sequentially:", ref0)
+		os.Exit(5)
+	}
+	for _, procs := range []int{2, 16} {
+		runtime.GOMAXPROCS(procs)
+		for it := 0; it < iters; it++ {
+			n := 4
+			got := make([]string, n)
+			var wg sync.WaitGroup
+			for t := 0; t < n; t++ {
+				wg.Add(1)
+				go func(t int) {
+					defer wg.Done()
+					got[t] = c09SinkBody(sink, t, it*10+procs)
+				}(t)
+			}
+			wg.Wait()
+			for t := 0; t < n; t++ {
+				if want := c09SinkBody(sink, t, it*10+procs); want != got[t] {
+					bad++
+					if bad < 4 {
+						fmt.Printf("MISMATCH (built-in surface) procs=%d thread %d: %s vs sequential %s\n", procs, t, got[t], want)
+					}
+				}
+			}
+		}
+	}
+	fmt.Printf("race-pass iterations=%d (+%d on the built-in surface library) mismatches=%d\n", iters*4, iters*2, bad)
 	if bad > 0 {
 		os.Exit(4)
 	}
@@ -616,6 +650,12 @@ func C09(rep *ev.Reporter, tier string) {
 		op, err := cmd.CombinedOutput()
 		s := string(op)
 		switch {
+		case strings.Contains(s, "fatal error: concurrent map"):
+			report("C09:data-race:runtime-abort-concurrent-map-access", "the Go runtime aborted concurrent [NewKnowledgeBaseInstance; Execute] bodies (each on its own instance and facts):\n"+trunc(s, 1500), "c09/race")
+			raceNote = "RUNTIME ABORT"
+		case strings.Contains(s, "VACUOUS"):
+			report("harness:C09-race-pass-vacuous", trunc(s, 600), "c09/race")
+			raceNote = "vacuous"
 		case strings.Contains(s, "WARNING: DATA RACE"):
 			report("C09:data-race:"+c09RaceClass(s), "the Go race detector reports a data race in concurrent [NewKnowledgeBaseInstance; Execute] bodies:\n"+trunc(s, 1500), "c09/race")
 			raceNote = "DATA RACE"
@@ -644,7 +684,7 @@ func C09(rep *ev.Reporter, tier string) {
 		rep.Exhaustive = false
 		rep.Coverage["caps_hit"] = "time budget"
 	}
-	rep.Coverage["rule"] = "(1) faithful copy: for every program of a corpus drawn from the general 2-rule alphabet and the dependency matrix NewKnowledgeBaseInstance succeeds and the instance's listener trace and final facts equal the blueprint's own. (2) isolation: the sets of struct/map/slice addresses reachable (reflection incl. unexported working-memory maps) from the blueprint and from each of 3 instances, after one instance has executed, are pairwise disjoint; state keys (retract/delete flags, memo flags and values) of blueprint and instance B are unchanged after execute + RetractRule + RemoveRuleEntry on instance A, and B still behaves like the blueprint. (3) concurrency: cooperative scheduler with yield points at every method entry of packages ast/engine and pkg.CloneTable (injected by overlay) and at every listener callback; N threads each doing [NewKnowledgeBaseInstance; Execute(own facts)] with facts that differ per thread; ALL interleavings with at most the stated number of preemptions (depth-first, sharded by first deviation over 16 single-threaded worker processes); oracle: each thread's trace, error and final facts equal its sequential run and instance creation never fails. Plus a free-running pass of the same bodies under the Go race detector with GOMAXPROCS 1,2,4,16. transitions = schedules executed; every schedule is a distinct interleaving."
+	rep.Coverage["rule"] = "(1) faithful copy: for every program of a corpus drawn from the general 2-rule alphabet and the dependency matrix NewKnowledgeBaseInstance succeeds and the instance's listener trace and final facts equal the blueprint's own. (2) isolation: the sets of struct/map/slice addresses reachable (reflection incl. unexported working-memory maps) from the blueprint and from each of 3 instances, after one instance has executed, are pairwise disjoint; state keys (retract/delete flags, memo flags and values) of blueprint and instance B are unchanged after execute + RetractRule + RemoveRuleEntry on instance A, and B still behaves like the blueprint. (3) concurrency: cooperative scheduler with yield points at every method entry of packages ast/engine and pkg.CloneTable (injected by overlay) and at every listener callback; N threads each doing [NewKnowledgeBaseInstance; Execute(own facts)] with facts that differ per thread; ALL interleavings with at most the stated number of preemptions (depth-first, sharded by first deviation over 16 single-threaded worker processes); oracle: each thread's trace, error and final facts equal its sequential run and instance creation never fails. Plus a free-running pass of the same bodies, and of a 7-rule library that exercises every built-in string/slice/map method, the built-in function families, JSON facts and time values with per-thread facts, under the Go race detector with GOMAXPROCS 1,2,4,16. transitions = schedules executed; every schedule is a distinct interleaving."
 	rep.Assumptions = append(rep.Assumptions, "sequentially consistent interleavings at method granularity; finer-grained races are the race detector pass's job", "map iteration order inside Clone is fixed (sorted) by the overlay so that yield-point sequences are reproducible")
 }
 
@@ -675,4 +715,73 @@ func c09RaceClass(s string) string {
 		}
 	}
 	return "unknown-site"
+}
+
+// c09Sink exercises the built-in surface (every string / slice / map method, the built-in functions, JSON
+// facts, time values) so that the race pass also covers package-level state behind those entry points.
+const c09Sink = `
+rule s1 salience 9 { when F.S.MatchString(F.KS) || F.S.Contains("zz") || F.S.HasPrefix("zz") || F.S.HasSuffix("zz") || F.S.In("q", "r")
+  then F.I2 = F.S.Len() + F.S.Count("a") + F.S.Index("b") + F.S.LastIndex("b") + F.S.Compare("ab"); Retract("s1"); }
+rule s2 salience 8 { when F.SArr.Len() > 1 then F.SArr[0] = F.S.ToUpper() + F.S.ToLower() + F.S.Repeat(2) + F.S.Replace("a", "z") + F.S.Trim(); F.In = F.S.Split("b").Len(); Retract("s2"); }
+rule s3 salience 7 { when F.Arr.Len() > 0 && F.M.Len() > 0 then F.Arr.Append(4); F.I8 = F.Arr.Len(); F.M["n"] = F.M["a"] + F.Arr[F.K]; Retract("s3"); }
+rule s4 salience 6 { when IsNil(F.PI) || IsZero(F.I16) then F.F = Max(1.5, 2.5) + Min(1.0, 2.0) + Abs(-1.5) + Sqrt(4.0) + Pow(2.0, 3.0) + Floor(1.5) + Ceil(1.5) + Round(1.5) + Mod(5.0, 3.0) + Trunc(2.5); Retract("s4"); }
+rule s5 salience 5 { when GetTimeYear(MakeTime(2020, 1, 2, 3, 4, 5)) == 2020 && IsTimeBefore(F.T, Now()) && GetTimeMonth(F.T) > 0 then F.P.S = TimeFormat(F.T, "2006") + F.KS; F.I32 = GetTimeDay(F.T) + GetTimeHour(F.T) + GetTimeMinute(F.T) + GetTimeSecond(F.T); Retract("s5"); }
+rule s6 salience 4 { when J.n >= 1 && J.a[0] > 0 && J.s.Len() > 0 && J.o.b then J.n = J.n + J.a[1]; J.s = J.s + F.KS; Retract("s6"); }
+rule s7 salience 3 { when StringContains(F.S, "a") && F.Add(F.I, 1) > 0 then F.S = F.Cat(F.S, "!", F.KS); Changed("F.S"); Forget("F.I"); Retract("s7"); }
+`
+
+// C09SinkOnce runs the sink body once (development aid and sequential reference).
+func C09SinkOnce(tid int) string {
+	lib, err := hx.BuildText(c09Sink)
+	if err != nil {
+		return "build: " + err.Error()
+	}
+	return c09SinkBody(lib, tid, 0)
+}
+
+func c09SinkBody(lib *ast.KnowledgeLibrary, tid, iter int) (out string) {
+	defer func() {
+		if r := recover(); r != nil {
+			out = fmt.Sprintf("PANIC %v", r)
+		}
+	}()
+	kb, err := lib.NewKnowledgeBaseInstance(hx.KBName, hx.KBVer)
+	if err != nil {
+		return "instance: " + err.Error()
+	}
+	f := facts.New()
+	f.K = int64(tid % 3)
+	f.I = int64(tid)
+	f.S = fmt.Sprintf("ab%dab", tid)
+	f.KS = fmt.Sprintf("^ab%d.*%d?$", tid, iter) // a pattern no other thread / iteration uses
+	f.SArr = []string{"p", "q"}
+	f.Arr = []int64{1, 2, 3}
+	f.M = map[string]int64{"a": int64(tid)}
+	f.P = &facts.Sub{}
+	f.T = time.Date(2001, 2, 3, 4, 5, 6, 0, time.UTC)
+	dc := ast.NewDataContext()
+	dc.Add("F", f)
+	if err := dc.AddJSON("J", []byte(fmt.Sprintf(`{"n": %d, "a": [1, 2], "s": "js", "o": {"b": true}}`, tid+1))); err != nil {
+		return "json: " + err.Error()
+	}
+	var evs []string
+	eng := &engine.GruleEngine{MaxCycle: 12, Listeners: []engine.GruleEngineListener{&c09Listener{obs: &c09Obs{}, y: func(string) {}}}}
+	lst := eng.Listeners[0].(*c09Listener)
+	errs := ""
+	if err := eng.Execute(dc, kb); err != nil {
+		errs = firstLineOf(err.Error())
+	}
+	evs = lst.obs.Events
+	n := 0
+	for _, e := range evs {
+		if strings.HasPrefix(e, "X") {
+			n++
+		}
+	}
+	jn := dc.Get("J")
+	js := ""
+	if jn != nil {
+		js = fmt.Sprint(jn.Value().Interface())
+	}
+	return fmt.Sprintf("fired=%d err=%q I2=%d In=%d I8=%d I32=%d F=%v S=%q SArr=%q Arr=%v M=%v P.S=%q J=%s", n, errs, f.I2, f.In, f.I8, f.I32, f.F, f.S, f.SArr, f.Arr, f.M, f.P.S, js)
 }
